@@ -248,11 +248,25 @@ def r4_length(ctx):
         ctx.check(ok, "C05.R4", f, st, "fraction None (and count None) refused before", "a None fraction reaches the multiplication", construct="both-None refusal")
 
 
+def r5_statistics_not_rewritten(ctx):
+    """After a memory-less step `self.sufficient_statistics` IS the dictionary returned by compute_sufficient_statistics, whose entries
+    are the State's own tensors: an in-place operation on a value read from the State rewrites S_(k-1) before it enters the convex
+    combination of the next iteration."""
+    from ._shared import inplace_on_state_values
+    ctx.rule("C05.R5", "the statistics in force are never rewritten through an alias: no in-place operation on a tensor read from a State", 8)
+    sites, holders = inplace_on_state_values(ctx)
+    for fn, node, desc in sites:
+        ctx.violation("C05.R5", fn, node, desc + ": the stored statistics S_(k-1) hold the same tensor, so the next averaged value is not (1-e) S_(k-1) + e s_k")
+    for fn, names in holders:
+        ctx.ok("C05.R5", fn, fn.node, f"locals aliasing State values {names}: never modified in place", construct=f"def {fn.name}")
+
+
 def rules(ctx):
     r1_phase(ctx)
     r2_convex(ctx)
     r3_validation(ctx)
     r4_length(ctx)
+    r5_statistics_not_rewritten(ctx)
     ctx.trust("Python int comparison / arithmetic semantics for the enumerated guards; sympy expand")
 
 
